@@ -34,6 +34,22 @@ fn arg<'a>(args: &'a [String], name: &str) -> Option<&'a str> {
 }
 
 fn run_prop(ctx: &mut Ctx) -> bool {
+    // every call of the crate made for the model comparison runs under `catch_unwind`; a panic
+    // that escapes anyway comes from a follow-up call of an oracle (e.g. dedent applied to its
+    // own output): the stream ends there and the last queued case is reported as the input
+    let r = std::panic::catch_unwind(std::panic::AssertUnwindSafe(|| run_prop_inner(ctx)));
+    match r {
+        Ok(b) => b,
+        Err(_) => {
+            let d = ctx.last_desc.clone();
+            ctx.fail("returns normally (no panic)", format!("a follow-up call of the crate panicked right after the case {}", d), None);
+            ctx.flush();
+            true
+        }
+    }
+}
+
+fn run_prop_inner(ctx: &mut Ctx) -> bool {
     match ctx.prop.as_str() {
         "C01" => props_b::c01(ctx),
         "C02" => props_b::c02(ctx),
